@@ -249,13 +249,28 @@ def run_impl(case):
 
 
 def to_driver(case, impl):
-  return parsedom.to_driver(case['text'])
+  req = parsedom.to_driver(case['text'])
+  if impl.get('pv') is not None:
+    req['single'] = parsedom.tokens_of(case['value_text'].lstrip(' \t'))   # what `parse_value` is given
+  return req
 
 
 def compare(case, impl, model):
   if case['kind'] == 'rebind':
     return None
-  return parsedom.compare(impl, model)
+  why = parsedom.compare(impl, model)
+  if why is None and impl.get('pv') is not None:
+    # `gin.config.parse_value` against the model's `parseSingleValue`
+    ipv, mpv = impl['pv'], model.get('pv')
+    if mpv is None:
+      return f'driver gave no parse_value result: {model}'
+    if ('v' in ipv) != ('v' in mpv):
+      return f'parse_value: impl {ipv} model {mpv}'
+    if 'v' in ipv and _canon_dicts(ipv['v']) != _canon_dicts(parsedom._py_dict(mpv['v'])):  # pylint: disable=protected-access
+      return f'parse_value: impl {ipv["v"]} model {mpv["v"]}'
+    if 'err' in ipv and not ipv['err'].startswith('syntax') and impl['err'] is not None and impl['err'].startswith('syntax'):
+      return f'parse_value: impl {ipv} model {mpv}'
+  return why
 
 
 def _canon_dicts(x):
